@@ -67,6 +67,9 @@ func propC01(p *Prog, r *Report) {
 	})
 	r.Floor("C01.d", "class-relevant-call-sites", n, 20)
 	c01Tombstones(p, r)
+	r.Rule("C01.f", "Create pipe: end of stream is reported to the storing goroutine only when the pipe is drained (= C12.f); the chunk saved for a retry has exactly the length of the chunk written (= C10.c)")
+	c12EOFOnlyWhenDrained(p, r, "C01.f")
+	c10ChunkSaved(p, r, "C01.f")
 }
 
 func c01EmptyKey(p *Prog, r *Report) {
